@@ -109,6 +109,15 @@ PROPS = {
         "partial": ["float rounding ('few ulps') clause not modelled", "a value computed but never used on the taken path is not checked for overflow"],
         "selfcheck": {"quick": 200, "thorough": 1000},
     },
+    "C11": {
+        "claimed": True,
+        "technique": "Coq proof over translated programs; dimension-generic dot-product algebra (induction over the left-associated sum), nsatz/field, acos/sin lemmas",
+        "level_text": "for Vec2/3/4/8/16 and Extent2/3 (all inputs): dot, magnitude(_squared), distance(_squared) are the textbook sums, magnitude^2 = magnitude_squared; normalized returns a parallel vector of unit length for every non-zero vector, with the in-place and magnitude-returning forms consistent; try_normalized refuses exactly |v|^2 <= 4 eps; is_normalized / is_approx_zero decide the stated relative tests; reflected is v - 2(v.n)n and for unit n preserves length and flips the normal component; refracted of unit vectors returns zero exactly on total internal reflection and otherwise a unit vector whose tangential part is eta times the incident one (Snell) pointing into the surface; angle_between lies in [0,pi] with the clamped cosine; face_forward; Vec2 determine_side / areas = 2D cross (halved, absolute); Vec3 cross is bilinear, anticommutative, orthogonal, with the Lagrange identity; Vec4 homogenized makes w=1, point/direction tests; Vec3 slerp hits both endpoints and interpolates lengths linearly for every non-parallel pair. Vec32/Vec64: the polynomial functions only (partial).",
+        "level_note": "Trusted: Coq kernel; stdlib real-number axioms as printed; symx translator incl. its exact-arithmetic restatement of approx::RelativeEq (self-checked each run); Rust parametricity. Exact real arithmetic; float rounding not modelled.",
+        "design_ref": "DESIGN.md section 7, C11",
+        "assumptions": ["scalars are exact real numbers", "0 < 4 eps < 1"],
+        "partial": ["Vec32/Vec64: only dot/magnitude/distance families are proved (normalisation, reflection etc. are generated by the same macro arm as the fully proved Vec8/Vec16)"],
+    },
     "C12": {
         "claimed": True,
         "technique": "Coq proof over translated programs (ring/field/nsatz, sin/cos addition formulas, acos) for the generic code; hand-written Gallina model of the non-generic integer impls with theorems, extracted to OCaml and run against the real code on the same inputs",
